@@ -88,6 +88,8 @@ class C17(Check):
             yield ("gap=0.3", (spec, build, comps, rl, paired, (("gap", "0.3"),)))
             # a parameter whose effect is unmistakable: no variant can pass the filters
             yield ("min_coverage=1000", (spec, build, comps, rl, paired, (("min_coverage", "1000"),)))
+            # the no-data guard with the caller's value: both runs must refuse (the archive carries the default)
+            yield ("min_avg_coverage=1000", (spec, build, comps, rl, paired, (("min_avg_coverage", "1000"),)))
             if len(comps) == 2:     # with three phased copies the enumeration of tied refinements takes minutes
                 yield ("max_minor_solutions=3", (spec, build, comps, rl, paired, (("max_minor_solutions", "3"),)))
             if paired:
@@ -155,7 +157,7 @@ class C17(Check):
             l1, l2 = (o1 or "").splitlines(), (o2 or "").splitlines()
             diff = [(a, b) for a, b in zip(l1 + [""] * len(l2), l2 + [""] * len(l1)) if a != b][:2]
             v.append(("dump/output-file-differs", f"{where}: {len(l1)} vs {len(l2)} lines; first difference {diff}; replay stderr {r2.stderr[-200:]}"))
-        if o1 is not None and not [l for l in o1.splitlines() if l and not l.startswith("#")]:
+        if o1 is not None and not [l for l in o1.splitlines() if l and not l.startswith("#")] and not any(k == "min_avg_coverage" for k, _ in params):
             v.append(("dump/original-run-empty", f"{where}: {r1.stderr[-300:]}"))
         # in-process comparison of the solution objects
         kw = {k: v_ for k, v_ in params}
